@@ -27,6 +27,13 @@ func WithActor(ctx context.Context, name string) context.Context {
 	return context.WithValue(ctx, actorKey{}, name)
 }
 
+type noGateKey struct{}
+
+// WithNoGate marks a context whose operations bypass the gate (no virtual delay before the operation or its reply).
+func WithNoGate(ctx context.Context) context.Context { return context.WithValue(ctx, noGateKey{}, true) }
+
+func noGate(ctx context.Context) bool { b, _ := ctx.Value(noGateKey{}).(bool); return b }
+
 // Actor extracts the actor ("" if none).
 func Actor(ctx context.Context) string {
 	s, _ := ctx.Value(actorKey{}).(string)
@@ -122,6 +129,11 @@ type Proxy struct {
 	Tick     time.Duration
 	// ReplyDelay: every third write additionally delays its reply by 1..MaxDelay ticks.
 	ReplyDelay bool
+	// HoldWatch, if set, is called right before a watch is established (no proxy lock held). It models a slow watch
+	// establishment (remote state). It must not sleep on the virtual clock - the runtime establishes watches under its
+	// mutexes, and a mutex wait does not count as idle for synctest - but it may yield (runtime.Gosched) in real time
+	// for a bounded number of rounds while other goroutines of the same virtual instant make progress.
+	HoldWatch func(kind string, k Key)
 	// OnCommit, if set, is called under the lock for every commit (online monitors).
 	OnCommit func(c Commit, p *Proxy)
 
@@ -175,7 +187,7 @@ var ErrInjected = fmt.Errorf("verif: injected store failure")
 func (p *Proxy) FailNext(op string, n int) { p.mu.Lock(); p.failNext[op] += n; p.mu.Unlock() }
 
 func (p *Proxy) gate(ctx context.Context, op string) {
-	if p.MaxDelay <= 0 {
+	if p.MaxDelay <= 0 || noGate(ctx) {
 		return
 	}
 
@@ -198,7 +210,7 @@ func (p *Proxy) gate(ctx context.Context, op string) {
 // replyDelay delays the reply of a write (only when ReplyDelay is set): the caller learns about its commit late, so other
 // actors' commits can land between a helper's write and its next step (e.g. between a teardown mark and the watch that follows).
 func (p *Proxy) replyDelay(ctx context.Context) {
-	if !p.ReplyDelay || p.MaxDelay <= 0 {
+	if !p.ReplyDelay || p.MaxDelay <= 0 || noGate(ctx) {
 		return
 	}
 
@@ -514,6 +526,10 @@ func (p *Proxy) Watch(ctx context.Context, ptr resource.Pointer, ch chan<- state
 	// mutex another goroutine waits for would freeze the synctest clock (mutex waits are not durable blocks)
 	p.trace(ctx, "watch")
 
+	if p.HoldWatch != nil {
+		p.HoldWatch("single", KeyOf(ptr))
+	}
+
 	in := make(chan state.Event)
 	lo := p.Len()
 	err := p.Inner.Watch(ctx, ptr, in, opts...)
@@ -538,6 +554,10 @@ func (p *Proxy) WatchKind(ctx context.Context, kind resource.Kind, ch chan<- sta
 	// mutex another goroutine waits for would freeze the synctest clock (mutex waits are not durable blocks)
 	p.trace(ctx, "watchkind")
 
+	if p.HoldWatch != nil {
+		p.HoldWatch("kind", Key{kind.Namespace(), kind.Type(), ""})
+	}
+
 	in := make(chan state.Event)
 	lo := p.Len()
 	err := p.Inner.WatchKind(ctx, kind, in, opts...)
@@ -561,6 +581,10 @@ func (p *Proxy) WatchKindAggregated(ctx context.Context, kind resource.Kind, ch 
 	// no gate here: callers (the controller runtime) establish watches while holding mutexes, and a virtual sleep under a
 	// mutex another goroutine waits for would freeze the synctest clock (mutex waits are not durable blocks)
 	p.trace(ctx, "watchagg")
+
+	if p.HoldWatch != nil {
+		p.HoldWatch("agg", Key{kind.Namespace(), kind.Type(), ""})
+	}
 
 	in := make(chan []state.Event)
 	lo := p.Len()
